@@ -85,6 +85,8 @@ def gen_ops(rng, n, knobs, profile="c05"):
     types = ["str"] * 6 + ["bytes", "list", "dict", "df", "arr", "none", "int"]
     if knobs.get("hold"):
         types += ["arr", "df", "arr"]      # weak-referenceable values matter when the caller keeps them alive
+    if profile == "c06" and budget and budget >= 65536:
+        types += ["bigdf"]     # (fits these budgets whatever the sampled estimate says)
     if profile == "c07":
         types += ["part", "odpart", "odpart"]   # partitions (in memory / staged on disk) whose values share bytes with plain results
         types += ["badpart"]                    # ... and one whose storing fails half-way (a value that cannot be encoded)
@@ -100,7 +102,7 @@ def gen_ops(rng, n, knobs, profile="c05"):
             cls = rng.choices(["tiny", "third", "half", "exact", "over"], [4, 3, 2, 1, 1.5])[0]
             t = types[rng.randrange(len(types))]
             n_ = sc[cls]
-            if t in ("df", "arr", "list", "dict", "none", "int", "part", "odpart", "badpart"):
+            if t in ("df", "bigdf", "arr", "list", "dict", "none", "int", "part", "odpart", "badpart"):
                 cls = "typed"
                 if t in ("part", "odpart", "badpart"):
                     n_ = sc[rng.choice(["tiny", "third"])]
@@ -1010,7 +1012,9 @@ class LruLaws:
         if int(mc.memory_usage) != acct:
             bad("cache-usage-counter-drift", op, {"i": i, "usage": int(mc.memory_usage), "entries": acct})
             return
-        real = sum(int(est(e.value)) if e.has_value else int(est(None)) for e in now.values())
+        def sampled(v):      # the estimate of such a value is drawn from a random sample: it cannot be recomputed
+            return hasattr(v, "sample") and hasattr(v, "__len__") and len(v) > 100
+        real = sum((int(e.obj_size) if sampled(e.value) else int(est(e.value))) if e.has_value else int(est(None)) for e in now.values())
         if real != acct:
             bad("cache-entry-size-dishonest", op, {"i": i, "accounted": acct, "estimate": real})
             return
